@@ -104,7 +104,7 @@ func c05Package(r *core.Run, ch *core.Child, types []*CType, nstreams int) {
 	var pool []streamRec
 	for _, t := range types {
 		vg := codec.NewVG(t.Ctx, r.Seed)
-		for _, ev := range encodeValues(ch, t, vg.Records(t.Def, 4)) {
+		for _, ev := range encodeValues(ch, t, vg.RecordsRich(t.Def, 4)) {
 			pool = append(pool, streamRec{t, ev})
 		}
 	}
